@@ -153,6 +153,20 @@ def int_rows(a):
     return [[int(v) for v in row] for row in r]
 
 
+def rows_close(model_rows, impl_rows, code):
+    """low-precision results: every entry within one unit in the last place of the exact integer"""
+    eps = {16: 2.0 ** -10, 32: 2.0 ** -23}[code]
+    if len(model_rows) != len(impl_rows):
+        return False
+    for a, b in zip(model_rows, impl_rows):
+        if len(a) != len(b):
+            return False
+        for u, v in zip(a, b):
+            if u is None or abs(u - v) > eps * abs(u):
+                return False
+    return True
+
+
 def run_ops_impl(comp, x, ops):
     """Per op: ('ok', rows, dtype-code) or ('E:value'|'E:assert'|'E:<Other>', None, None)."""
     outs = []
@@ -248,12 +262,14 @@ def spec_py(case, M, tr, D):
 UNITS = [(1, 0), (0, 1), (3, 4), (-4, 3), (5, 12)]
 
 
-def gen_filters(r, real, power, maxw):
+def gen_filters(r, real, power, maxw, need_right=None):
     nf = r.randrange(1, 4)
     out = []
-    for _ in range(nf):
+    for idx in range(nf):
         left = r.randrange(-5, 3)
         wl = r.randrange(1, maxw + 1)
+        if idx == 0 and need_right is not None:
+            wl = max(wl, need_right - left)
         g = [r.randrange(-4, 5) for _ in range(wl)]
         if all(v == 0 for v in g):
             g[r.randrange(wl)] = 1
@@ -273,15 +289,12 @@ def gen_config(r, tier):
     power = r.random() < 0.5
     centered = r.random() < 0.5
     S = r.choice([1, 1, 2, 2, 3, 4, 5, 6, 7, 8, 9])
-    filters = gen_filters(r, real, power, 9 if tier == "quick" else 12)
-    if r.random() < 0.7:  # mostly inside WF: make some filter reach beyond S on the right
-        need = S + 1 + (0 if not centered else 0)
-        l, taps = filters[0]
-        while l + len(taps) < need:
-            taps.append([r.randrange(1, 4), 0] if real or not power else [r.randrange(-3, 4), r.randrange(1, 4)])
-        if not real and not power:
-            u = r.choice(UNITS)
-            filters[0][1] = [[(abs(t[0]) + abs(t[1]) or 1) * u[0], (abs(t[0]) + abs(t[1]) or 1) * u[1]] for t in taps]
+    # mostly inside WF / the property's precondition: some filter reaches beyond S on the right (causal) or is wider
+    # than 2S (centred)
+    need = None
+    if r.random() < 0.7:
+        need = (S + 1) if not centered else r.choice([1, 2 * S + 2])
+    filters = gen_filters(r, real, power, 9 if tier == "quick" else 12, need)
     case = dict(S=S, filters=filters, centered=centered, pad=r.random() < 0.5,
                 floor=r.choice([2, 2, 2, 7, 16, 23, 40]), energy=r.random() < 0.5, power=power, real=real,
                 window=[r.randrange(1, 6) for _ in range(2 * S)])
@@ -379,6 +392,13 @@ def check_case(ctx, case, comp, prm, mout, label="C03"):
     ctx.case(pub, nontrivial=N > 0 or len(ops) > 3,
              kind="intfir:%s:%s:%s" % (style, "wf" if is_wf else "nonwf", "real" if case["real"] else "complex"))
     ctx.count("V_blocks:%d" % min(4, N // max(1, D - M + 1)))
+    if comp.started:  # a previous case ended in an exception inside finalize (outside WF): start from a fresh computer
+        try:
+            comp.finalize()
+        except Exception:
+            pass
+        if comp.started:
+            comp = make_int_computer(case)[1]
     impl = run_ops_impl(comp, case["x"], ops)
     conv = []
     bad_float = False
@@ -441,6 +461,8 @@ def check_case(ctx, case, comp, prm, mout, label="C03"):
             if is_wf and exp is not None and m[1] != exp:
                 ctx.mismatch(pub, m[1], exp, "Lean spec vs python restatement of the documented formula")
             continue
+        if m[0] == "ok" and c[0] == "ok" and c[2] in (16, 32) and m[2] == c[2] and rows_close(m[1], c[1], c[2]):
+            continue  # a float16/float32 result holds the integer rounded to that precision
         if m[0] != c[0] or (m[0] == "ok" and (m[1] != c[1] or (m[2] != c[2] and not ops[i].startswith("d")))):
             ctx.mismatch(pub, m, c, "op %d (%s): model vs implementation" % (i, ops[i]))
             return
@@ -583,12 +605,11 @@ def library_oracle(ctx, n):
         D = dft_size_of(comp, bank, flags["pad_to_nearest_power_of_two"])
         V = D - (L - S + 1) + 1
         N = r.choice([0, 1, S // 2, S, S + 1, L - 1, L, L + 1, V, V + 1, 2 * V + 3, r.randrange(0, 3 * V + 2), 3 * D + 7])
-        rs = np.random.RandomState(r.randrange(1 << 30))
-        x = rs.randn(N).astype(DT[dt])
+        sig_seed = r.randrange(1 << 30)
+        x = np.random.RandomState(sig_seed).randn(N).astype(DT[dt])
         x.setflags(write=False)
         chunks = random_chunking(r, N)
-        case.update(N=N, chunks=chunks, L=L, S=S, D=D, sig_seed=int(rs.randint(1 << 30)))
-        case["x_seed_note"] = "signal = RandomState(seed).randn(N) with the seed drawn from the run's PRNG"
+        case.update(N=N, chunks=chunks, L=L, S=S, D=D, sig_seed=sig_seed)  # signal = RandomState(sig_seed).randn(N)
         ctx.case(case, kind="lib:%s:%s:f%d" % (kind, style, dt))
         done += 1
         tags = dict(computer="si", tracer="library", style=style, bank=kind)
